@@ -425,6 +425,18 @@ def translate_expr_fn(repo, relfile, qualname, coqname, params=None, consts=None
             nm = st.targets[0].id
             lets.append((nm, v))
             rx.env[nm] = nm
+        elif (isinstance(st, ast.Assign) and len(st.targets) == 1 and isinstance(st.targets[0], ast.Tuple)
+              and isinstance(st.value, ast.Tuple) and len(st.value.elts) == len(st.targets[0].elts)
+              and all(isinstance(x, ast.Name) for x in st.targets[0].elts)
+              and len({x.id for x in st.targets[0].elts}) == len(st.targets[0].elts)):
+            # a, b = e1, e2 : every right-hand side is evaluated before any name is bound
+            vs = [rx.tr(x) for x in st.value.elts]
+            for x, v in zip(st.targets[0].elts, vs):
+                tmp = '%s__new' % x.id
+                lets.append((tmp, v))
+            for x in st.targets[0].elts:
+                lets.append((x.id, '%s__new' % x.id))
+                rx.env[x.id] = x.id
         else:
             raise Refuse('%s: statement %s' % (qualname, type(st).__name__))
     if not body or not isinstance(body[-1], ast.Return) or body[-1].value is None:
